@@ -39,3 +39,16 @@ def read_report(path):
     except FileNotFoundError:
         pass
     return out
+
+
+def read_records(path, skip=0):
+    """-> list of per-process records (in the order the processes ended), skipping the
+    first `skip` ones"""
+    out = []
+    try:
+        with open(path) as f:
+            for line in f:
+                out.append(json.loads(line))
+    except FileNotFoundError:
+        pass
+    return out[skip:]
